@@ -21,6 +21,9 @@ KV == {Node("kv", "", <<k, v>>) : k \in HReps, v \in Reps}
 Dicts1 == {Node("dict", "", e) : e \in {s \in SeqsUpTo(KV, 2) : Len(s) < 2 \/ s[1].e[1] # s[2].e[1]}}
 Objs1 == {Node("obj", "Point", <<x, y>>) : x \in Reps, y \in {Atom("str", "a"), Atom("none", ""), Node("list", "", <<Atom("int", "1")>>)}}
          \cup {Node("obj", "Empty", <<>>)}
+         \* fields annotated as containers: None, the empty container and a filled one are three different values, in every position
+         \cup {Node("obj", "Bag", <<x, y>>) : x \in {Atom("none", ""), Node("list", "", <<>>), Node("list", "", <<Atom("int", "1")>>)},
+                                              y \in {Atom("none", ""), Node("dict", "", <<>>), Node("dict", "", <<Node("kv", "", <<Atom("str", "a"), Atom("int", "1")>>)>>)}}
 Over == {Node(t, "overlong", <<>>) : t \in {"list", "set", "dict"}}
 Depth1 == Lists1 \cup Sets1 \cup Dicts1 \cup Objs1 \cup Over
 CReps == {Node("list", "", <<>>), Node("tuple", "", <<Atom("int", "1"), Atom("str", "a")>>), Node("set", "", <<Atom("int", "128")>>), Node("dict", "", <<Node("kv", "", <<Atom("str", "a"), Atom("float", "0.1")>>)>>),
@@ -32,7 +35,8 @@ Depth2 == {Node(t, "", e) : t \in {"list", "tuple"}, e \in SeqsUpTo(CReps, 2)}
 Values == Atoms \cup Depth1 \cup (IF Deep THEN Depth2 ELSE {})
 \* channel sequences: several values written one after another, then read back
 ChanReps == {Atom("int", "0"), Atom("int", "-32769"), Atom("str", ""), Atom("str", "multibyte"), Atom("bytes", "L300"), Atom("none", ""), Atom("float", "nan"),
-             Node("list", "", <<Atom("int", "1")>>), Node("dict", "", <<>>), Node("obj", "Point", <<Atom("int", "1"), Atom("str", "a")>>), Atom("enum", "Shape.CIRCLE")}
+             Node("list", "", <<Atom("int", "1")>>), Node("dict", "", <<>>), Node("obj", "Point", <<Atom("int", "1"), Atom("str", "a")>>), Atom("enum", "Shape.CIRCLE"),
+             Node("obj", "Bag", <<Atom("none", ""), Atom("none", "")>>)}
 Chans == {s \in SeqsUpTo(ChanReps, 3) : Len(s) >= 2}
 
 VARIABLE i
